@@ -2,6 +2,7 @@ package main
 
 import (
 	"fmt"
+	"sort"
 	"os"
 	"path/filepath"
 	"regexp"
@@ -509,37 +510,53 @@ func (db *ContractDB) LoadContractsFor(pkgPaths []string, verifDir string) (map[
 	used := map[string]string{}
 	for _, pp := range pkgPaths {
 		rel := strings.TrimPrefix(pp, modulePath+"/")
-		inRepo := filepath.Join(repoDir(), rel, "verif_contracts.go")
-		mirror := filepath.Join(verifDir, "contracts", rel, "verif_contracts.go")
-		var path string
-		_, errRepo := os.Stat(inRepo)
-		_, errMirror := os.Stat(mirror)
-		switch {
-		case errRepo == nil && errMirror == nil:
-			// both exist: they are kept identical by sync-contracts.sh; if they
-			// differ, the copy in /repo is the annotation of record unless the
-			// developer asks for the mirror.
-			a, _ := os.ReadFile(inRepo)
-			b, _ := os.ReadFile(mirror)
-			path = inRepo
-			if string(a) != string(b) {
-				if os.Getenv("GOVC_CONTRACTS") != "repo" {
+		// a package may have several contract files: verif_contracts.go, verif_contracts_<x>.go
+		names := map[string]bool{}
+		for _, dir := range []string{filepath.Join(repoDir(), rel), filepath.Join(verifDir, "contracts", rel)} {
+			ms, _ := filepath.Glob(filepath.Join(dir, "verif_contracts*.go"))
+			for _, m := range ms {
+				names[filepath.Base(m)] = true
+			}
+		}
+		var sorted []string
+		for n := range names {
+			sorted = append(sorted, n)
+		}
+		sort.Strings(sorted)
+		for _, name := range sorted {
+			inRepo := filepath.Join(repoDir(), rel, name)
+			mirror := filepath.Join(verifDir, "contracts", rel, name)
+			var path string
+			_, errRepo := os.Stat(inRepo)
+			_, errMirror := os.Stat(mirror)
+			switch {
+			case errRepo == nil && errMirror == nil:
+				// kept identical by sync-contracts.sh; if they differ the developer's
+				// mirror is used unless GOVC_CONTRACTS=repo
+				a, _ := os.ReadFile(inRepo)
+				b, _ := os.ReadFile(mirror)
+				path = inRepo
+				if string(a) != string(b) && os.Getenv("GOVC_CONTRACTS") != "repo" {
 					path = mirror
 					fmt.Fprintf(os.Stderr, "note: %s differs from the copy in /repo; using the /verif mirror (run sync-contracts.sh)\n", mirror)
 				}
+			case errRepo == nil:
+				path = inRepo
+			case errMirror == nil:
+				path = mirror
 			}
-		case errRepo == nil:
-			path = inRepo
-		case errMirror == nil:
-			path = mirror
+			if path == "" {
+				continue
+			}
+			if err := db.LoadContractFile(path, pp); err != nil {
+				return nil, err
+			}
+			if used[pp] != "" {
+				used[pp] += ", " + path
+			} else {
+				used[pp] = path
+			}
 		}
-		if path == "" {
-			continue
-		}
-		if err := db.LoadContractFile(path, pp); err != nil {
-			return nil, err
-		}
-		used[pp] = path
 	}
 	return used, nil
 }
